@@ -122,7 +122,12 @@ class HashFileDB(ObjectDB):
                 # must not get protected and trusted from now on.
                 try:
                     self.check(o, check_hash=True)
-                except (ObjectFormatError, FileNotFoundError):
+                except ObjectFormatError as exc:
+                    # removed by check(); whoever took the first error for
+                    # harmless (e.g. object already there) has to know
+                    assert on_error is not None
+                    on_error(o, exc)
+                except FileNotFoundError:
                     pass
                 continue
 
